@@ -2,11 +2,14 @@
 From PasfmtVerif Require Export Model.Token.
 
 (* the whitespace emitted in front of one token; must_break = previous token was a `//` comment *)
+(* `ws.contains(['\n', '\r'])` *)
+Definition has_break (ws : bytes) : bool := contains_byte 10 ws || contains_byte 13 ws.
+
 Definition emit_ws (rs : rsettings) (must_break : bool) (p : ftoken) : bytes :=
   let (tok, f) := p in
   let eof := is_eof (t_ty tok) in
   if f_ignored f then
-    (if must_break && negb (contains_byte 10 (t_ws tok)) && negb eof then rs_newline rs else [])
+    (if must_break && negb (has_break (t_ws tok)) && negb eof then rs_newline rs else [])
     ++ t_ws tok
   else
     let nls := if must_break && (f_nl f =? 0) && negb eof then 1 else f_nl f in
